@@ -50,7 +50,7 @@ DEPENDENT = {"remaining_operations", "is_completed", "updater", "composite"}
 
 def strategy(tier):
     big = tier == "thorough"
-    inst = gen.instances(max_jobs=4, max_ops=5, max_machines=4, max_total=18 if big else 14)
+    inst = gen.instances(max_jobs=4, max_ops=5, max_machines=4, max_total=18 if big else 14, big_ok=True)
     feat = obs.feature_configs(min_size=1, max_size=1).map(lambda l: ["feature"] + l[0])
     item = gen.weighted(
         (8, feat),
